@@ -682,6 +682,14 @@ fn deep_cases() -> Vec<Value> {
                 "bl":k % 4,"lh":[1, 100],"pos":[3, 4]}));
         }
     }
+    // images that are long in one direction and degenerate in the other: rows / columns without any pixel must not
+    // cost stack (a colour stream that skips empty rows one call per row)
+    // (display scale: 1024 rows / columns)
+    for (bpp, w, h) in [(1usize, 0u32, 1024u32), (8, 0, 1024), (16, 1024, 0), (1, 1, 1024), (8, 1024, 1), (24, 0, 1000)] {
+        let len = ((w as usize * bpp + 7) / 8) * h as usize;
+        let data: Vec<u32> = (0..len).map(|j| (j as u32 * 29 + 3) & 0xFF).collect();
+        v.push(json!({"kind":"image","bpp":bpp,"w":w,"h":h,"data":data,"pos":[3, -4],"sub":[0, 5, 1, h / 2],"sub2":[0, 0, 1, 9]}));
+    }
     v
 }
 
